@@ -1553,6 +1553,11 @@ fn round_w1_async(seed: u64, pm: u64) -> Result<(usize, usize), String> {
         if *p < lastp {
             return Err(format!("async subscriber saw {v} (position {p}) after position {lastp}: went backwards"));
         }
+        // values are unique here: next() handing out the same value twice means it was ready again
+        // without an update the subscriber had not observed
+        if *p == lastp && *p != 0 {
+            return Err(format!("async subscriber was handed {v} twice by consecutive next() calls although no update happened in between"));
+        }
         lastp = *p;
     }
     Ok((nrec + seen.len(), threads + 1))
